@@ -22,13 +22,16 @@ CONSTANTS
   MaxLen,       \* bound on Len(doc) when History
   EmitMode,     \* "none" | "graph" (one document per sampled transition) | "docs"
   SampleMod, SamplePick,  \* graph mode: emit when Hash(state, symbol) % SampleMod = SamplePick
-  ValidOnly     \* TRUE: random walks take only steps that keep the document acceptable to the scan stage
+  ValidOnly,    \* TRUE: random walks take only steps that keep the document acceptable to the scan stage
                 \* (and use no MACRO / PASTE), so that long well-nested documents reach the later stages
+  MaxInc        \* INCLUDE nesting depth explored (0: single-file documents only)
 
-VARIABLES chain, pend, st, doc
-vars == <<chain, pend, st, doc>>
+VARIABLES chain, pend, st, doc,
+          inc        \* number of included files being read (scanner stack depth)
+vars == <<chain, pend, st, doc, inc>>
 
-NoDir == [k |-> "none", x |-> FALSE, p |-> FALSE, id |-> 0]
+\* f: an INCLUDE was met after this directive was read and before it was placed
+NoDir == [k |-> "none", x |-> FALSE, p |-> FALSE, id |-> 0, f |-> FALSE]
 Ent(d) == [k |-> d.k, x |-> d.x, id |-> d.id]
 RejectCh == << [k |-> "REJECT", x |-> FALSE, id |-> 0] >>
 
@@ -79,24 +82,35 @@ KwSyms  == {[t |-> "kw", k |-> k, p |-> p] : k \in TreeKinds, p \in BOOLEAN} \
              {[t |-> "kw", k |-> k, p |-> TRUE] : k \in TreeKinds \ Http}
 OpenSym  == [t |-> "open",  k |-> "", p |-> FALSE]
 CloseSym == [t |-> "close", k |-> "", p |-> FALSE]
-Symbols == KwSyms \cup {OpenSym, CloseSym}
+\* file boundaries: "fb" = an INCLUDE line (the scanner is switched to a fresh file),
+\* "fe" = the end of that file (the suspended scanner resumes)
+FbSym == [t |-> "fb", k |-> "", p |-> FALSE]
+FeSym == [t |-> "fe", k |-> "", p |-> FALSE]
+Symbols == KwSyms \cup {OpenSym, CloseSym} \cup (IF MaxInc > 0 THEN {FbSym, FeSym} ELSE {})
+\* kinds whose minimal rendering has a body: the body stays in the file of the keyword, so a "(" cannot
+\* follow it from the other side of a file boundary
+BodyKinds == {"Description", "Path", "Headers", "Query", "ENUM", "Params", "Result"}
 
 NextId == IF History THEN Len(doc) + 1 ELSE 0
 
-Init == chain = << >> /\ pend = NoDir /\ st = "run" /\ doc = << >>
+Init == chain = << >> /\ pend = NoDir /\ st = "run" /\ doc = << >> /\ inc = 0
 
 Log(sym) == doc' = IF History THEN Append(doc, sym) ELSE doc
 
 \* processCurrentDirective: place the pending directive (if any)
 Flushed == IF pend = NoDir THEN chain ELSE Walk(chain, pend)
 
+\* processKeyword: flush, then JSIGHT is refused while the scanner stack is not empty
 Keyword(k, p) ==
   /\ st = "run"
   /\ Log([t |-> "kw", k |-> k, p |-> p])
+  /\ UNCHANGED inc
   /\ IF Flushed = RejectCh
      THEN st' = "rej_ctx" /\ UNCHANGED <<chain, pend>>
+     ELSE IF k = "JSIGHT" /\ inc > 0
+     THEN st' = "err_jsight_inc" /\ chain' = Flushed /\ pend' = NoDir
      ELSE /\ chain' = Flushed
-          /\ pend' = [k |-> k, x |-> FALSE, p |-> p, id |-> NextId]
+          /\ pend' = [k |-> k, x |-> FALSE, p |-> p, id |-> NextId, f |-> FALSE]
           /\ st' = "run"
 
 \* "(" with no directive being read is rejected at that parenthesis (until the fix for F-01 the
@@ -104,7 +118,9 @@ Keyword(k, p) ==
 Open ==
   /\ st = "run"
   /\ pend.k \notin NoParenKinds       \* the scanner cannot emit "(" after Description
+  /\ ~(pend.f /\ pend.k \in BodyKinds)
   /\ Log(OpenSym)
+  /\ UNCHANGED inc
   /\ IF pend = NoDir
      THEN st' = "err_open" /\ UNCHANGED <<chain, pend>>
      ELSE pend' = [pend EXCEPT !.x = TRUE] /\ UNCHANGED <<chain, st>>
@@ -112,15 +128,36 @@ Open ==
 Close ==
   /\ st = "run"
   /\ Log(CloseSym)
+  /\ UNCHANGED inc
   /\ IF Flushed = RejectCh
      THEN st' = "rej_ctx" /\ UNCHANGED <<chain, pend>>
      ELSE IF CutAtParen(Flushed) = RejectCh
           THEN st' = "err_close" /\ chain' = Flushed /\ pend' = NoDir
           ELSE chain' = CutAtParen(Flushed) /\ pend' = NoDir /\ st' = "run"
 
+\* processInclude: the scanner is switched; the directive being read is NOT placed yet (the first
+\* keyword, ")" or end of the included file does that), the chain of open contexts is untouched
+FileBegin ==
+  /\ st = "run" /\ inc < MaxInc
+  /\ Log(FbSym)
+  /\ inc' = inc + 1
+  /\ pend' = IF pend = NoDir THEN pend ELSE [pend EXCEPT !.f = TRUE]
+  /\ UNCHANGED <<chain, st>>
+
+\* processEOF of an included file: place the pending directive; no parenthesis may be open (not even
+\* one opened by an including file); then Stack.Pop and the chain simply continues
+FileEnd ==
+  /\ st = "run" /\ inc > 0
+  /\ Log(FeSym)
+  /\ IF Flushed = RejectCh
+     THEN st' = "rej_ctx" /\ UNCHANGED <<chain, pend, inc>>
+     ELSE /\ chain' = Flushed /\ pend' = NoDir
+          /\ IF HasOpenParen(Flushed) THEN st' = "err_fe" /\ UNCHANGED inc
+             ELSE st' = "run" /\ inc' = inc - 1
+
 Eof ==
-  /\ st = "run"
-  /\ UNCHANGED doc
+  /\ st = "run" /\ inc = 0
+  /\ UNCHANGED <<doc, inc>>
   /\ IF Flushed = RejectCh
      THEN st' = "rej_ctx" /\ UNCHANGED <<chain, pend>>
      ELSE /\ chain' = Flushed /\ pend' = NoDir
@@ -129,7 +166,7 @@ Eof ==
 \* guards of the "valid only" walks
 Placeable(k, p) == /\ k \notin {"MACRO", "PASTE", "JSIGHT"}
                    /\ Flushed # RejectCh
-                   /\ Walk(Flushed, [k |-> k, x |-> FALSE, p |-> p, id |-> 0]) # RejectCh
+                   /\ Walk(Flushed, [k |-> k, x |-> FALSE, p |-> p, id |-> 0, f |-> FALSE]) # RejectCh
 Next ==
   \/ /\ (History => Len(doc) < MaxLen)
      /\ \/ (~ValidOnly /\ \E s \in KwSyms : Keyword(s.k, s.p))
@@ -138,6 +175,8 @@ Next ==
              /\ LET s == RandomElement({x \in KwSyms : Placeable(x.k, x.p)}) IN Keyword(s.k, s.p))
         \/ ((ValidOnly => pend # NoDir /\ AdmitsOf(pend.k) # {}) /\ Open)
         \/ ((ValidOnly => Flushed # RejectCh /\ HasOpenParen(Flushed)) /\ Close)
+        \/ FileBegin
+  \/ ((ValidOnly => Flushed # RejectCh /\ ~HasOpenParen(Flushed)) /\ FileEnd)
   \/ ((ValidOnly => Len(doc) >= MaxLen) /\ Eof)
 
 Spec == Init /\ [][Next]_vars
@@ -146,7 +185,8 @@ Spec == Init /\ [][Next]_vars
 (* Design-level properties (checked on the closed graph)                   *)
 
 TypeOK ==
-  /\ st \in {"run", "rej_ctx", "err_close", "err_eof", "err_open", "done"}
+  /\ st \in {"run", "rej_ctx", "err_close", "err_eof", "err_open", "err_fe", "err_jsight_inc", "done"}
+  /\ inc \in 0..MaxInc
   /\ \A i \in 1..Len(chain) : chain[i].k \in TreeKinds
 
 \* C06: the code's walk places every directive exactly where the declarative rule says
@@ -173,8 +213,8 @@ NoCrash == st # "crash_nil"
 
 Place(mode, ch, d) == IF mode = "decl" THEN Decl(ch, d) ELSE Walk(ch, d)
 
-RECURSIVE Run(_, _, _, _, _, _, _)
-Run(mode, d, i, ch, pd, par, devs) ==
+RECURSIVE Run(_, _, _, _, _, _, _, _)
+Run(mode, d, i, ch, pd, par, devs, nin) ==
   LET fl    == IF pd = NoDir THEN ch ELSE Place(mode, ch, pd)
       par2  == IF pd = NoDir \/ fl = RejectCh THEN par
                ELSE [par EXCEPT ![pd.id] = IF Len(fl) = 1 THEN 0 ELSE fl[Len(fl) - 1].id]
@@ -187,17 +227,24 @@ Run(mode, d, i, ch, pd, par, devs) ==
        ELSE R("ok", 0, par2)
   ELSE CASE d[i].t = "kw" ->
               IF fl = RejectCh THEN R("rej_ctx", pd.id, par)
-              ELSE Run(mode, d, i + 1, fl, [k |-> d[i].k, x |-> FALSE, p |-> d[i].p, id |-> i], par2, devs2)
+              ELSE IF d[i].k = "JSIGHT" /\ nin > 0 THEN R("err_jsight_inc", i, par2)
+              ELSE Run(mode, d, i + 1, fl, [k |-> d[i].k, x |-> FALSE, p |-> d[i].p, id |-> i, f |-> FALSE], par2, devs2, nin)
          [] d[i].t = "open" ->
               IF pd = NoDir THEN R("err_open", i, par)
-              ELSE Run(mode, d, i + 1, ch, [pd EXCEPT !.x = TRUE], par, devs2)
+              ELSE Run(mode, d, i + 1, ch, [pd EXCEPT !.x = TRUE], par, devs2, nin)
          [] d[i].t = "close" ->
               IF fl = RejectCh THEN R("rej_ctx", pd.id, par)
               ELSE IF CutAtParen(fl) = RejectCh THEN R("err_close", i, par2)
-              ELSE Run(mode, d, i + 1, CutAtParen(fl), NoDir, par2, devs2)
+              ELSE Run(mode, d, i + 1, CutAtParen(fl), NoDir, par2, devs2, nin)
+         [] d[i].t = "fb" -> Run(mode, d, i + 1, ch, pd, par, devs2, nin + 1)
+         [] d[i].t = "fe" ->
+              IF fl = RejectCh THEN R("rej_ctx", pd.id, par)
+              ELSE IF HasOpenParen(fl) THEN R("err_fe", i, par2)
+              ELSE Run(mode, d, i + 1, fl, NoDir, par2, devs2, nin - 1)
 
-Meaning(d)  == Run("decl", d, 1, << >>, NoDir, [i \in 1..Len(d) |-> -1], {})
-ImplPred(d) == Run("walk", d, 1, << >>, NoDir, [i \in 1..Len(d) |-> -1], {})
+\* documents are balanced in "fb"/"fe" (the emitters append the missing "fe")
+Meaning(d)  == Run("decl", d, 1, << >>, NoDir, [i \in 1..Len(d) |-> -1], {}, 0)
+ImplPred(d) == Run("walk", d, 1, << >>, NoDir, [i \in 1..Len(d) |-> -1], {}, 0)
 
 -----------------------------------------------------------------------------
 (* Canonical document of a state: drives the real code into (chain, pend)  *)
@@ -212,12 +259,17 @@ CanonCh(ch, i) ==
 \* opened and closed again under the last chain entry
 SomeChild(k) == CHOOSE c \in AdmitsOf(k) \ NoParenKinds : TRUE
 
+Fbs(n) == [i \in 1..n |-> FbSym]
+Fes(n) == [i \in 1..n |-> FeSym]
+\* a state with inc = n is reproduced by n nested INCLUDEs at the very beginning
 Canon(ch, pd) ==
-  CanonCh(ch, 1) \o
+  Fbs(IF pd.f THEN inc - 1 ELSE inc) \o CanonCh(ch, 1) \o
   (IF pd = NoDir
    THEN IF ch = << >> THEN << >>
+        ELSE IF MaxInc > 0 /\ ~HasOpenParen(ch) THEN << FbSym, FeSym >>     \* an empty included file places what is pending
         ELSE << [t |-> "kw", k |-> SomeChild(ch[Len(ch)].k), p |-> FALSE], OpenSym, CloseSym >>
-   ELSE << [t |-> "kw", k |-> pd.k, p |-> pd.p] >> \o (IF pd.x THEN << OpenSym >> ELSE << >>))
+   ELSE << [t |-> "kw", k |-> pd.k, p |-> pd.p] >> \o (IF pd.x THEN << OpenSym >> ELSE << >>)
+        \o (IF pd.f THEN << FbSym >> ELSE << >>))
 
 Closers(n) == [i \in 1..n |-> CloseSym]
 
@@ -225,41 +277,52 @@ KindIdx(k) == CHOOSE i \in 1..Len(KindSeq) : KindSeq[i] = k
 RECURSIVE ChHash(_, _)
 ChHash(ch, i) == IF i > Len(ch) THEN 0
                  ELSE (KindIdx(ch[i].k) * (2 * i + 1) + (IF ch[i].x THEN 17 ELSE 0) + 3 * ChHash(ch, i + 1)) % 100003
-SymHash(s) == IF s.t = "kw" THEN KindIdx(s.k) * 5 + (IF s.p THEN 1 ELSE 0) ELSE IF s.t = "open" THEN 301 ELSE 302
+SymHash(s) == IF s.t = "kw" THEN KindIdx(s.k) * 5 + (IF s.p THEN 1 ELSE 0)
+              ELSE CASE s.t = "open" -> 301 [] s.t = "close" -> 302 [] s.t = "fb" -> 303 [] OTHER -> 304
 Hash(s) == (ChHash(chain, 1) * 7 + (IF pend = NoDir THEN 0 ELSE KindIdx(pend.k) * 11 + (IF pend.x THEN 5 ELSE 0)
-            + (IF pend.p THEN 3 ELSE 0)) + SymHash(s) * 13) % SampleMod
+            + (IF pend.p THEN 3 ELSE 0) + (IF pend.f THEN 1 ELSE 0)) + SymHash(s) * 13 + inc * 29) % SampleMod
 
 \* the canonical document really leads to this state (checked, not assumed)
 StripIds(ch) == [i \in 1..Len(ch) |-> [k |-> ch[i].k, x |-> ch[i].x]]
 
-RECURSIVE Drive(_, _, _, _)
-Drive(d, i, ch, pd) ==     \* Walk-fold that returns the state instead of the verdict
+RECURSIVE Drive(_, _, _, _, _)
+Drive(d, i, ch, pd, nin) ==     \* Walk-fold that returns the state instead of the verdict
   LET fl == IF pd = NoDir THEN ch ELSE Walk(ch, pd) IN
-  IF i > Len(d) THEN <<StripIds(ch), [k |-> pd.k, x |-> pd.x, p |-> pd.p]>>
-  ELSE CASE d[i].t = "kw"    -> Drive(d, i + 1, fl, [k |-> d[i].k, x |-> FALSE, p |-> d[i].p, id |-> i])
-         [] d[i].t = "open"  -> Drive(d, i + 1, ch, [pd EXCEPT !.x = TRUE])
-         [] d[i].t = "close" -> Drive(d, i + 1, CutAtParen(fl), NoDir)
+  IF i > Len(d) THEN <<StripIds(ch), [k |-> pd.k, x |-> pd.x, p |-> pd.p, f |-> pd.f], nin>>
+  ELSE CASE d[i].t = "kw"    -> Drive(d, i + 1, fl, [k |-> d[i].k, x |-> FALSE, p |-> d[i].p, id |-> i, f |-> FALSE], nin)
+         [] d[i].t = "open"  -> Drive(d, i + 1, ch, [pd EXCEPT !.x = TRUE], nin)
+         [] d[i].t = "close" -> Drive(d, i + 1, CutAtParen(fl), NoDir, nin)
+         [] d[i].t = "fb"    -> Drive(d, i + 1, ch, IF pd = NoDir THEN pd ELSE [pd EXCEPT !.f = TRUE], nin + 1)
+         [] d[i].t = "fe"    -> Drive(d, i + 1, fl, NoDir, nin - 1)
 
 CanonReaches ==
   st = "run" =>
-    Drive(Canon(chain, pend), 1, << >>, NoDir) = <<StripIds(chain), [k |-> pend.k, x |-> pend.x, p |-> pend.p]>>
+    Drive(Canon(chain, pend), 1, << >>, NoDir, 0) =
+      <<StripIds(chain), [k |-> pend.k, x |-> pend.x, p |-> pend.p, f |-> pend.f], inc>>
 
 NParens(ch, pd) == Cardinality({i \in 1..Len(ch) : ch[i].x}) + (IF pd.x THEN 1 ELSE 0)
 
-EmitDoc(d) == PrintT("MBT " \o ToJson([doc |-> d, out |-> Meaning(d), impl |-> ImplPred(d)]))
+RECURSIVE OpenIncs(_)
+OpenIncs(d) == IF d = << >> THEN 0
+               ELSE (CASE Head(d).t = "fb" -> 1 [] Head(d).t = "fe" -> -1 [] OTHER -> 0) + OpenIncs(Tail(d))
+\* the files that are still being read end where the document ends
+Balanced(d) == LET n == OpenIncs(d) IN IF n > 0 THEN d \o Fes(n) ELSE d
+EmitDoc(d0) == LET d == Balanced(d0) IN
+               PrintT("MBT " \o ToJson([doc |-> d, out |-> Meaning(d), impl |-> ImplPred(d)]))
 
 \* graph mode: one document per sampled (state, symbol) pair: canonical prefix, the symbol,
 \* then enough ")" to let the scan stage finish so that the forest becomes observable
 EmitGraph ==
   (EmitMode = "graph" /\ st = "run") =>
      \A s \in Symbols :
-        (Hash(s) = SamplePick /\ ~(s.t = "open" /\ pend.k \in NoParenKinds)) =>
+        (Hash(s) = SamplePick /\ ~(s.t = "open" /\ (pend.k \in NoParenKinds \/ (pend.f /\ pend.k \in BodyKinds)))
+           /\ ~(s.t = "fb" /\ inc >= MaxInc) /\ ~(s.t = "fe" /\ inc = 0)) =>
            EmitDoc(Canon(chain, pend) \o << s >> \o
                    Closers(NParens(chain, pend) + (IF s.t = "open" THEN 1 ELSE 0)))
 
 \* docs mode: emit the history of every terminal behaviour or of every behaviour at the bound
 EmitDocs ==
-  (EmitMode = "docs" /\ History /\ st \in {"done", "err_eof", "rej_ctx", "err_close", "err_open"}) =>
+  (EmitMode = "docs" /\ History /\ st \in {"done", "err_eof", "rej_ctx", "err_close", "err_open", "err_fe", "err_jsight_inc"}) =>
      EmitDoc(IF ValidOnly THEN doc \o Closers(NParens(chain, NoDir)) ELSE doc)
 
 Emit == EmitGraph /\ EmitDocs
